@@ -96,6 +96,7 @@ const (
 )
 
 type Task struct {
+	stallGap  int  // StallAfter: statements left until the task deschedules itself (0 = off)
 	killed    bool // reaped by the harness (ReapBlockedSUT): unwinds with Goexit the next time it is scheduled
 	stalled   bool // descheduled until no other task can run and no event is due (StallPoint)
 	ID        int
@@ -1043,6 +1044,16 @@ func Yield() {
 	w.afterResume(t)
 }
 
+// StallAfter: the calling task deschedules itself after its next n statements, until every other task has run as
+// far as it can and every due event has been delivered (the second preemption of a two-preemption schedule).
+//
+//go:norace
+func StallAfter(n int) {
+	if W != nil && W.cur != nil {
+		W.cur.stallGap = n
+	}
+}
+
 // StallPoint is called by the simulated transport when a send returns: with the run's stall probability the
 // calling task is descheduled, as a thread may be on return from a system call, and stays so until every other
 // task has run as far as it can and every due event has been delivered. No simulated time passes. This is what
@@ -1121,6 +1132,25 @@ func Point(id int) {
 		w.setVerdict("step_budget", t.Site, fmt.Sprintf("run exceeded %d steps; task %s (created at %s) has run %d points since it last blocked", w.cfg.MaxSteps, t.Name, t.Site, t.since))
 		w.endRun(t)
 		return
+	}
+	if t.stallGap > 0 {
+		t.stallGap--
+		if t.stallGap == 0 {
+			if w.cfg.Verbose {
+				Tracef("STALL (requested) at point %d", id)
+			}
+			if w.urgent == t {
+				w.urgent = nil
+			}
+			w.Stats.Stalls++
+			w.mix(11, uint64(id))
+			t.stalled = true
+			w.nStalled++
+			t.state = stRunnable
+			w.resched(t, true)
+			w.afterResume(t)
+			return
+		}
 	}
 	if w.ptTask != nil && w.ptTask != t && w.ptLeft > 0 {
 		w.ptLeft--
